@@ -87,18 +87,29 @@ def handleLifecycle (verb : String) (j : Json) : Option Json :=
     let content := (str j "content").toList
     let total := int j "total"
     let refurb := lcPairs j "refurb"
-    some (match timingData content total refurb with
-      | .error _ => Json.mkObj [("err", "ValueError")]
-      | .ok st => Json.mkObj [("text", String.ofList (renderObj st.data)), ("mypy", lcPairsJ st.mypy), ("refurb", lcPairsJ st.refurb)])
+    -- "rsplit" overrides the shape read from the working tree (used to exercise both shapes)
+    let rs := match j.getObjValAs? Bool "rsplit" with
+      | .ok b => b
+      | .error _ => Generated.timingRsplit
+    some (match timingData rs content total refurb with
+      | .error _ => Json.mkObj [("err", "ValueError"), ("rsplit", rs)]
+      | .ok st => Json.mkObj [("text", String.ofList (renderObj st.data)), ("mypy", lcPairsJ st.mypy), ("refurb", lcPairsJ st.refurb),
+          ("rsplit", rs)])
   | "otsof" =>
-    some (Json.str (lcOtsName (otsOf (bool j "readable") (str j "content").toList (bool j "writable"))))
+    some (Json.str (lcOtsName (otsOf Generated.timingRsplit (bool j "readable") (str j "content").toList (bool j "writable"))))
   | "pyint" =>
     some (match parsePyInt (str j "s").toList with
       | some i => Json.str (String.ofList (intChars i))
       | Option.none => Json.null)
   | "pysplit" =>
     some (Json.mkObj [("lines", toJson ((pySplitlines (str j "s").toList).map String.ofList)),
-      ("fields", toJson ((pySplit (str j "s").toList).map String.ofList))])
+      ("fields", toJson ((pySplit (str j "s").toList).map String.ofList)),
+      ("rfields", toJson ((pyRsplit1 (str j "s").toList).map String.ofList))])
+  | "pyrsplit" =>
+    -- code points in, code points out (the text may contain U+0085/U+2028, which the harness would cut lines at)
+    let s : Str := ((arr j "cps").filterMap (fun v => (v.getNat?).toOption)).map Char.ofNat
+    let cps (l : List Str) : Json := toJson (l.map (fun f => f.map Char.toNat))
+    some (Json.mkObj [("rsplit1", cps (pyRsplit1 s)), ("split", cps (pySplit s))])
   | "pychartables" =>
     -- every code point below 0x110000 the model treats as whitespace / as a line boundary
     let cps := (List.range 0x110000).filter (fun n => n < 0xd800 || 0xdfff < n)
